@@ -10,7 +10,7 @@ CFG = {
              "Compared: the returned string AND every string the closure was called with (already lower-cased). Oracle on norad's own result: the seven predicates "
              "of Spec/C07.lean. non-trivial = the model escaped a character, inserted the reserved-word underscore, clipped, replaced a trailing run or needed a counter; distinct by input tokens"),
     "exhaustive": {"quick": True, "thorough": True},
-    "exhaustive_note": "all 22620 names of length 1..4 over a 12-symbol alphabet, both affix pairs, accepted at call 0 and at call 1 (90480 cases); the random part is not exhaustive",
+    "exhaustive_note": "all 22620 names of length 1..4 over a 12-symbol alphabet, both affix pairs, accepted at call 0 and at call 1 (90480 cases); thorough: also all 248832 names of length 5 with the glif pair; the random part is not exhaustive",
     "timeout": {"quick": 600, "thorough": 7200},
     "trusted_base": COMMON_TRUST + [
         "Unicode tables are parameters: U = char::is_uppercase and lower = str::to_lowercase. Theorems hold for every lower and every U (not_reserved needs U true on ASCII A-Z). "
